@@ -21,16 +21,60 @@ def read(rel):
 
 
 def strip_comments(src):
-    # remove // comments (good enough: the anchored files have no `//` inside literals
-    # on constant lines)
+    """remove `// ...` and `/* ... */` comments wherever they stand (also after code on the same line and inside a
+    multi-line constant), keeping line breaks; string, byte-string, raw-string and char literals are skipped over,
+    a `'` that starts a lifetime is not taken for a char literal"""
     out = []
-    for line in src.split("\n"):
-        m = re.match(r'^(\s*)//', line)
-        if m:
-            out.append("")
+    i, n = 0, len(src)
+    while i < n:
+        c = src[i]
+        if src.startswith("//", i):
+            j = src.find("\n", i)
+            i = n if j < 0 else j
+        elif src.startswith("/*", i):
+            depth, j = 1, i + 2
+            while j < n and depth:
+                if src.startswith("/*", j):
+                    depth += 1; j += 2
+                elif src.startswith("*/", j):
+                    depth -= 1; j += 2
+                else:
+                    j += 1
+            out.append(" " + "\n" * src.count("\n", i, j))
+            i = j
+        elif c == '"' or (c in "br" and re.match(r'b?r#*"|b"', src[i:i + 8])):
+            m = re.match(r'b?r(#*)"', src[i:i + 40])
+            if m:                                   # raw string: ends at `"` followed by the same number of #
+                end = src.find('"' + m.group(1), i + len(m.group(0)))
+                j = n if end < 0 else end + 1 + len(m.group(1))
+            else:
+                j = i + (2 if c == "b" else 1)
+                while j < n and src[j] != '"':
+                    j += 2 if src[j] == "\\" else 1
+                j += 1
+            out.append(src[i:j]); i = j
+        elif c == "'":
+            m = re.match(r"'(?:\\x[0-9a-fA-F]{2}|\\u\{[0-9a-fA-F_]+\}|\\.|[^'\\\n])'", src[i:i + 16])
+            if m:
+                out.append(m.group(0)); i += len(m.group(0))
+            else:                                   # a lifetime / loop label
+                out.append(c); i += 1
         else:
-            out.append(line)
-    return "\n".join(out)
+            out.append(c); i += 1
+    return "".join(out)
+
+
+def flex(pattern):
+    """a pattern written with single spaces, made indifferent to layout: a space between two word characters
+    stands for `\\s+`, any other space for `\\s*` (values, operators and their order are matched literally)"""
+    out = []
+    for i, ch in enumerate(pattern):
+        if ch != " ":
+            out.append(ch); continue
+        a = pattern[i - 1] if i else ""
+        b = pattern[i + 1] if i + 1 < len(pattern) else ""
+        out.append(r"\s+" if (a.isalnum() or a == "_") and (b.isalnum() or b == "_") else r"\s*")
+    return "".join(out)
 
 
 # ---- tiny evaluator for constant expressions -------------------------------------------
@@ -190,7 +234,8 @@ def fn_body(src, name, what):
 
 
 def need(pattern, src, what, flags=re.S):
-    m = re.search(pattern, src, flags)
+    """search `pattern` (written with single spaces, see flex) in `src`"""
+    m = re.search(flex(pattern), src, flags)
     if not m:
         raise ConstsError("pattern for %s not found" % what)
     return m
@@ -248,7 +293,7 @@ def generate():
     env["HEXDIG"] = nenv["HEXDIG"]
     # float overflow guard: which infinities are refused after parsing a decimal float
     fb = fn_body(s, "float", what)
-    m = need(r'\.verify\(\|f: &f64\|\s*(.*?)\)\s*,', fb, "float verify closure")
+    m = need(r'\.verify\( \|f: &f64\| (.*?)\) ,', fb, "float verify closure")
     guard = re.sub(r'\s+', ' ', m.group(1).strip())
     if guard == "*f != f64::INFINITY":
         D("FLOAT_REJECT_POS_INF", "bool", "true", what); D("FLOAT_REJECT_NEG_INF", "bool", "false", what)
@@ -275,14 +320,14 @@ def generate():
     # escape_seq_char arms: b'x' => empty.value('y') ; b'u' => hexescape::<4> ; b'U' => hexescape::<8>
     fb = fn_body(s, "escape_seq_char", what)
     simple = []
-    for m in re.finditer(r"(b'(?:\\.|[^'\\])')\s*=>\s*empty\.value\(('(?:\\u\{[0-9a-fA-F]+\}|\\.|[^'\\])')\)", fb):
+    for m in re.finditer(r"(b'(?:\\.|[^'\\])')\s*=>\s*empty\s*\.value\(\s*('(?:\\u\{[0-9a-fA-F]+\}|\\.|[^'\\])')\s*\)", fb):
         k = ev.parse(m.group(1))[1]
         v = ev.parse(m.group(2))[1]
         simple.append((k, v))
     if not simple:
         raise ConstsError("escape_seq_char: no simple escape arms found")
     hexes = []
-    for m in re.finditer(r"(b'(?:\\.|[^'\\])')\s*=>\s*cut_err\(hexescape::<(\d+)>\)", fb):
+    for m in re.finditer(r"(b'(?:\\.|[^'\\])')\s*=>\s*cut_err\(\s*hexescape::<\s*(\d+)\s*>\s*\)", fb):
         hexes.append((ev.parse(m.group(1))[1], int(m.group(2))))
     if not hexes:
         raise ConstsError("escape_seq_char: no hexescape arms found")
@@ -310,7 +355,8 @@ def generate():
 
     # ---- value.rs dispatch sets
     s = strip_comments(read(P + "value.rs")); what = P + "value.rs"
-    m = need(r"INLINE_TABLE_OPEN\s*=>[^\n]*\n\s*((?:b'[^']+'(?:\.\.=b'[^']+')?\s*\|?\s*)+)=>\s*\{\s*alt\(", s, "value dispatch number arm")
+    m = need(r"((?:b'(?:\\.|[^'\\])'(?:\s*\.\.=\s*b'(?:\\.|[^'\\])')?\s*\|?\s*)+)=>\s*\{\s*alt\(\s*\(\s*date_time\b", fn_body(s, "value", what),
+             "value dispatch number arm")
     cls = []
     for part in m.group(1).split("|"):
         part = part.strip()
@@ -322,7 +368,7 @@ def generate():
     s = strip_comments(read(P + "mod.rs")); what = P + "mod.rs"
     v = ev.parse(find_const(s, "LIMIT", what)); D("LIMIT", "nat", "%d" % v[1], what)
     en = fn_body(s, "enter", what)
-    need(r"self\.current \+= 1;\s*if LIMIT <= self\.current", en, "RecursionCheck::enter shape")
+    need(r"self\.current \+= 1 ; if LIMIT <= self\.current", en, "RecursionCheck::enter shape")
     cd = fn_body(s, "check_depth", what)
     need(r"if LIMIT <= _depth", cd, "RecursionCheck::check_depth shape")
 
@@ -334,28 +380,31 @@ def generate():
     for fn, nm in [("date_month", "MONTH"), ("date_mday", "MDAY"), ("time_hour", "HOUR"),
                    ("time_minute", "MINUTE"), ("time_second", "SECOND")]:
         fb = fn_body(s, fn, what)
-        m = need(r"unsigned_digits::<(\d+),\s*(\d+)>", fb, fn + " digits")
+        m = need(r"unsigned_digits::< (\d+) , (\d+) >", fb, fn + " digits")
         if (m.group(1), m.group(2)) != ("2", "2"):
             raise ConstsError("%s no longer reads exactly 2 digits" % fn)
-        m = need(r"\((\d+)\.\.=(\d+)\)\.contains\(&d\)", fb, fn + " range")
+        m = need(r"\( (\d+) \.\.= (\d+) \) \.contains\( &d \)", fb, fn + " range")
         D("DT_%s_MIN" % nm, "N", g_n(int(m.group(1))), what)
         D("DT_%s_MAX" % nm, "N", g_n(int(m.group(2))), what)
     fb = fn_body(s, "date_fullyear", what)
-    m = need(r"unsigned_digits::<(\d+),\s*(\d+)>", fb, "date_fullyear digits")
+    m = need(r"unsigned_digits::< (\d+) , (\d+) >", fb, "date_fullyear digits")
     if (m.group(1), m.group(2)) != ("4", "4"):
         raise ConstsError("date_fullyear no longer reads exactly 4 digits")
     fb = fn_body(s, "full_date_", what)
     D("DT_MAXDAYS", "list (N * bool * N)", parse_maxdays(fb, "month"), what)
-    need(r"let is_leap_year = \(year % 4 == 0\) && \(\(year % 100 != 0\) \|\| \(year % 400 == 0\)\);", fb, "full_date_ leap rule")
+    need_leap_rule(s, fb, "full_date_ leap rule", what)
     need(r"if max_days_in_month < day \{", fb, "full_date_ day check")
     fb = fn_body(s, "time_offset", what)
-    m = need(r"\.verify\(\|minutes\| \(\((-?\d+) \* (\d+)\)\.\.=\((\d+) \* (\d+)\)\)\.contains\(minutes\)\)", fb, "time_offset range")
+    m = need(r"\.verify\( \|minutes\| \( \( (-?\d+) \* (\d+) \) \.\.= \( (\d+) \* (\d+) \) \) \.contains\( minutes \) \)", fb, "time_offset range")
     D("DT_OFFSET_MIN", "Z", g_z(int(m.group(1)) * int(m.group(2))), what)
     D("DT_OFFSET_MAX", "Z", g_z(int(m.group(3)) * int(m.group(4))), what)
-    need(r"one_of\(\(b'Z', b'z'\)\)\.value\(Offset::Z\)", fb, "time_offset Z arm")
-    need(r"one_of\(\(b'\+', b'-'\)\)", fb, "time_offset sign")
+    need(r"one_of\( \( b'Z' , b'z' \) \) \.value\( Offset::Z \)", fb, "time_offset Z arm")
+    need(r"one_of\( \( b'\+' , b'-' \) \)", fb, "time_offset sign")
     fb = fn_body(s, "time_secfrac", what)
-    sc = ev2.parse("[" + need(r"static SCALE: \[u32; (\d+)\] = \[(.*?)\];", fb, "SCALE").group(2) + "]")
+    msc = need(r"static SCALE : \[ u32 ; (\d+) \] = \[(.*?)\] ;", fb, "SCALE")
+    sc = ev2.parse("[" + msc.group(2) + "]")
+    if len(sc[1]) != int(msc.group(1)):
+        raise ConstsError("SCALE: declared length %s, %d elements read" % (msc.group(1), len(sc[1])))
     D("DT_SCALE", "list N", "[" + "; ".join(g_n(x[1]) for x in sc[1]) + "]", what)
 
     # ---- toml_datetime FromStr
@@ -369,27 +418,27 @@ def generate():
     m = need(r"if date\.day < (\d+) \|\| date\.day > max_days_in_month \{", fb, "from_str day check")
     D("SD_DAY_MIN", "N", g_n(int(m.group(1))), what)
     D("SD_MAXDAYS", "list (N * bool * N)", parse_maxdays(fb, "date.month"), what)
-    need(r"\(date\.year % 4 == 0\) && \(\(date\.year % 100 != 0\) \|\| \(date\.year % 400 == 0\)\);", fb, "from_str leap rule")
+    need_leap_rule(s, fb, "from_str leap rule", what)
     for fld, nm in [("hour", "HOUR"), ("minute", "MINUTE"), ("second", "SECOND"), ("nanosecond", "NANO")]:
         m = need(r"if time\.%s > ([\d_]+) \{" % fld, fb, "from_str %s check" % fld)
         D("SD_%s_MAX" % nm, "N", g_n(int(m.group(1).replace("_", ""))), what)
-    m = re.search(r"if !\(\((-?\d+) \* (\d+)\)\.\.=\((\d+) \* (\d+)\)\)\.contains\(&total_minutes\) \{", fb)
+    m = re.search(flex(r"if !\( \( (-?\d+) \* (\d+) \) \.\.= \( (\d+) \* (\d+) \) \) \.contains\( &total_minutes \) \{"), fb)
     if m:
         D("SD_OFFSET_MIN", "Z", g_z(int(m.group(1)) * int(m.group(2))), what)
         D("SD_OFFSET_MAX", "Z", g_z(int(m.group(3)) * int(m.group(4))), what)
     else:
         raise ConstsError("from_str offset total-minutes check not found")
     # optional per-field offset checks (absent in the pinned tree; present after the repair)
-    m = re.search(r"if hours > (\d+) \|\| minutes > (\d+) \{", fb)
+    m = re.search(flex(r"if hours > (\d+) \|\| minutes > (\d+) \{"), fb)
     if m:
         D("SD_OFFSET_HOUR_MAX", "N", g_n(int(m.group(1))), what); D("SD_OFFSET_MINUTE_MAX", "N", g_n(int(m.group(2))), what)
     else:
         D("SD_OFFSET_HOUR_MAX", "N", g_n(99), what); D("SD_OFFSET_MINUTE_MAX", "N", g_n(99), what)
-    m = need(r"if i (<=?) (\d+) \{\s*let p = 10_u32\.pow\((\d+) - i as u32\);", fb, "from_str fraction scaling")
+    m = need(r"if i (<=?) (\d+) \{ let p = 10_u32 \.pow\( (\d+) - i as u32 \) ;", fb, "from_str fraction scaling")
     D("SD_FRAC_DIGITS", "nat", str(int(m.group(2)) + (1 if m.group(1) == "<=" else 0)), what)
     D("SD_FRAC_TOP_EXP", "nat", m.group(3), what)
-    need(r"if chars\.clone\(\)\.nth\(2\) == Some\(':'\)", fb, "from_str time-only test")
-    need(r"next == Some\('T'\) \|\| next == Some\('t'\) \|\| next == Some\(' '\)", fb, "from_str delimiter test")
+    need(r"if chars \.clone\(\) \.nth\( 2 \) == Some\( ':' \)", fb, "from_str time-only test")
+    need(r"next == Some\('T'\) \|\| next == Some\('t'\) \|\| next == Some\('[ ]'\)", fb, "from_str delimiter test")
     need(r"next == Some\('Z'\) \|\| next == Some\('z'\)", fb, "from_str Z test")
 
     # ---- default decor (free formatting constants)
@@ -410,10 +459,25 @@ def generate():
     return defs
 
 
+def need_leap_rule(src, fb, what, origin):
+    """the Gregorian rule `(y % 4 == 0) && ((y % 100 != 0) || (y % 400 == 0))` (y any place expression), either written in
+    the function body `fb` as the value of `is_leap_year`, or in a helper function that `is_leap_year` is computed by and
+    whose whole body it is"""
+    rule = flex(r"\( ([\w.]+) % 4 == 0 \) && \( \( \1 % 100 != 0 \) \|\| \( \1 % 400 == 0 \) \)")
+    if re.search(flex(r"let is_leap_year = ") + rule + r"\s*;", fb, re.S):
+        return
+    m = re.search(flex(r"let is_leap_year = (\w+)\( [\w.]+ \) ;"), fb, re.S)
+    if m:
+        hb = fn_body(src, m.group(1), origin)
+        if re.fullmatch(r"\{\s*" + rule + r"\s*\}", hb, re.S):
+            return
+    raise ConstsError("pattern for %s not found" % what)
+
+
 def parse_maxdays(fb, scrut):
     """`match month { 2 if is_leap_year => 29, 2 => 28, 4 | 6 | 9 | 11 => 30, _ => 31 }`
     -> list of (month, needs_leap, days) with month 0 = wildcard, in arm order."""
-    m = need(r"let max_days_in_month = match %s \{(.*?)\};" % re.escape(scrut), fb, "max_days_in_month match")
+    m = need(r"let max_days_in_month = match %s \{(.*?)\} ;" % re.escape(scrut), fb, "max_days_in_month match")
     arms = []
     for arm in m.group(1).split(","):
         arm = arm.strip()
@@ -424,8 +488,9 @@ def parse_maxdays(fb, scrut):
             raise ConstsError("max_days arm not understood: %r" % arm)
         pat, days = am.group(1).strip(), int(am.group(2))
         leap = False
-        if pat.endswith("if is_leap_year"):
-            leap = True; pat = pat[:-len("if is_leap_year")].strip()
+        gm = re.match(r"^(.*?)\s+if\s+is_leap_year$", pat, re.S)
+        if gm:
+            leap = True; pat = gm.group(1).strip()
         if pat == "_":
             arms.append((0, leap, days))
         else:
